@@ -17,4 +17,8 @@ if [ ! -d /verif/target/feat-d-0 ]; then
   cargo build --offline --quiet -p featdrv --no-default-features --features Debug --target-dir /verif/target/feat-d-0 2>&1 | tail -1
   for k in $(seq 1 15); do cp -a /verif/target/feat-d-0 /verif/target/feat-d-$k; done
 fi
+# C16 compares this dev-profile build with a release-profile build of the same sources
+if [ ! -d /verif/target/feat-rel ]; then
+  cargo build --offline --quiet --release -p featdrv --no-default-features --features Debug,Clone,Copy,PartialEq,Eq,PartialOrd,Ord,Hash,Default,Deref,DerefMut,Into --target-dir /verif/target/feat-rel 2>&1 | tail -1
+fi
 echo "setup done"
